@@ -307,6 +307,43 @@ def work_cross(ctx, j):
     return out
 
 
+# ---- saturation: the whole opcode vocabulary, round robin, many rounds in ONE process (finds state that only
+# ---- matters after it accumulated: counters that are not reset, caches that fill up)
+
+def vocabulary_blocks():
+    from . import evm_ref as E
+    out = []
+    for op in sorted(E.ARITY):
+        if op.startswith(("DUP", "SWAP", "PUSH")) or op in ("POP", "JUMPDEST", "tag"):
+            continue
+        a, r = E.ARITY[op]
+        arg = "a1" if op == "ASSIGNIMMUTABLE" else None
+        for blk in ([(op, arg), (op, arg)] + ([("ADD", None)] if (a, r) == (0, 1) else []), [(op, arg)]):
+            try:
+                E.need_delta(blk)
+            except Exception:
+                continue
+            out.append(blk)
+            break
+    return out
+
+
+def work_saturate(ctx, rounds):
+    vs = vocabulary_blocks()
+    out = []
+    for _ in range(rounds):
+        row = []
+        for blk in vs:
+            try:
+                row.append(hashlib.sha1(process(ctx, blk).encode()).hexdigest())
+            except (repo.UnitTimeout, MemoryError):
+                raise
+            except Exception as e:
+                row.append("raised:%s" % type(e).__name__)
+        out.append(row)
+    return out
+
+
 # ---- position independence inside a contract
 
 def position_docs():
@@ -357,7 +394,9 @@ def main(tier, seed, only=None):
                        "canonical snapshot of every module-level variable of the tool; BFS with state hashing to depth "
                        "%d (each history replayed in a fresh process) plus one de Bruijn walk of order %d per option "
                        "set (every word of that length over the probes occurs as consecutive transitions), %d option "
-                       "sets; invariant on every transition: result == result in a fresh process; non-trivial = "
+                       "sets; invariant on every transition: result == result in a fresh process; plus cross-history "
+                       "agreement over a victim pool and saturation histories (one block per opcode of the vocabulary, "
+                       "round robin, 13/41 rounds in one process, every round must repeat the first); non-trivial = "
                        "distinct global states reached" % (len(ps), depth, order, len(CFGS)))
     tot = {"states": 0, "transitions": 0, "histories": 0, "budget": 0, "nvars": 0, "pos": 0}
     changed_vars = set()
@@ -474,6 +513,40 @@ def main(tier, seed, only=None):
     chk.cov["cross_histories"] = ncross
     chk.cov["cross_victims"] = nvict
 
+    # saturation histories
+    rounds = 13 if tier == "quick" else 41
+    vocab = vocabulary_blocks()
+    nsat = 0
+    for cfg in cfgs[:2] if tier == "quick" else cfgs:
+        sres = {}
+
+        def on_s(c, u, status, value):
+            chk.add("evaluations")
+            sres["status"], sres["value"] = status, value
+
+        pool.run_tasks([(cfg, [rounds])], work_saturate, setup=setup, unit_timeout=3000, on_result=on_s)
+        if sres.get("status") != "ok":
+            tot["budget"] += 1
+            chk.violation("harness-saturate-%s" % sres.get("status"), {"config": list(cfg), "detail": str(sres.get("value"))[-300:]})
+            continue
+        rows = sres["value"]
+        tot["histories"] += 1
+        for i, blk in enumerate(vocab):
+            tot["transitions"] += len(rows)
+            nsat += len(rows)
+            first = rows[0][i]
+            for rno, row in enumerate(rows):
+                if row[i] != first:
+                    chk.violation("history-dependent;saturation;%s" % ("+".join(c for c in cfg if c != "-greedy") or "default"),
+                                  {"kind": "saturation", "config": list(cfg), "block": B.to_text(blk), "vocab_index": i,
+                                   "first_differing_round": rno, "rounds": rounds,
+                                   "note": "the vocabulary (one block per opcode) is processed round robin in one "
+                                           "process; this block's result changed in the given round"})
+                    break
+    chk.cov["saturation_transitions"] = nsat
+    chk.cov["saturation_vocabulary"] = len(vocab)
+    chk.cov["saturation_rounds"] = rounds
+
     # position independence
     def on_p(cfg, trio, status, value):
         chk.add("evaluations")
@@ -518,6 +591,22 @@ def replay(path):
         a, b = got.get(w["history_a"], {}).get(i), got.get(w["history_b"], {}).get(i)
         print("replay:", a, b)
         if a != b:
+            print("VIOLATION property=C12 replay=%s" % path)
+            return 1
+        print("no violation on replay")
+        return 0
+    if w.get("kind") == "saturation":
+        sres = {}
+
+        def on_s(c, u, status, value):
+            sres["status"], sres["value"] = status, value
+
+        pool.run_tasks([(cfg, [w["first_differing_round"] + 1])], work_saturate, setup=setup, unit_timeout=3000,
+                       on_result=on_s)
+        rows = sres.get("value") if sres.get("status") == "ok" else None
+        i = w["vocab_index"]
+        print("replay:", sres.get("status"), rows and rows[0][i], rows and rows[-1][i])
+        if rows and rows[0][i] != rows[-1][i]:
             print("VIOLATION property=C12 replay=%s" % path)
             return 1
         print("no violation on replay")
